@@ -139,7 +139,7 @@ T_R3 = "CFG dominance / guard-or-forward analysis over MIR in dev and release co
 
 PROPS = {
     "C01": {
-        "clauses": [fam("Add", "Sub"), signed("Add", "Sub"), both(r3.check_underflow_asserts), r3.check_checked_sub, r3.check_add2_carry_used, r3.check_underflow_check_sees_all_digits, r3.check_panic_site_table, r4.check_block_loops, r4.check_block_loop_callers, r5check.check_arithmetic({"Add", "Sub"}, 30), count_ok("biguint/addition.rs", "biguint/subtraction.rs", "bigint/addition.rs", "bigint/subtraction.rs", floor=70), r1.check_biguint_normal_form, r5check.check_division_methods, r1.check_no_constant_cut, selftest("R1-constant-cut", "R2-count-narrowed")],
+        "clauses": [fam("Add", "Sub"), signed("Add", "Sub"), both(r3.check_underflow_asserts), r3.check_checked_sub, r3.check_add2_carry_used, r3.check_underflow_check_sees_all_digits, r3.check_panic_site_table, r4.check_block_loops, r4.check_block_loop_callers, r5check.check_arithmetic({"Add", "Sub"}, 30), count_ok("biguint/addition.rs", "biguint/subtraction.rs", "bigint/addition.rs", "bigint/subtraction.rs", floor=70), r1.check_biguint_normal_form, r5check.check_division_methods, r1.check_no_constant_cut, r3.check_digit_step_checked, selftest("R1-constant-cut", "R2-count-narrowed", "R3c-digit-step"), r3.check_operand_overflow, selftest("R3c-operand-overflow", "R3c-operand-overflow-abs")],
         "not_decided": "the digit arithmetic itself: adc/sbb of the scalar tail, how far a carry or borrow ripples into the longer operand, result growth (a seeded lost "
         "ripple inside `&a - b` is not detected)",
         "level_text": "Decides structural necessary conditions for every input: the two x86_64 block loops are well-formed carry chains (template data flow, addressing, "
@@ -147,23 +147,23 @@ PROPS = {
         "in order (never swapped for -) or are reviewed implementations whose sign/zero/order case analysis is checked against a +/- by abstract interpretation "
         "for all magnitudes; the underflow assertions of sub2/sub2rev are mandatory in release builds, test both the final borrow and the subtrahend's high "
         "digits and see all digits of the subtrahend; checked_sub returns None exactly on Less and subtracts only on Greater; no call site drops the "
-        "carry/borrow returned by __add2, adc, sbb or __sub2rev; results escape in canonical form; no digit count is truncated by a cast.",
+        "carry/borrow returned by __add2, adc, sbb or __sub2rev; results escape in canonical form; no digit count is truncated by a cast. Also: no overflow-checked `+=`/`-=` is applied directly to an element of a digit slice without a test of that element (a carry or borrow taken from one digit must be propagated); new explicit panic sites and unchecked negations in the add/sub code are reported.",
         "technique": "MIR dataflow over operator impls (forwarder classification, operand provenance); CFG dominance of the mandatory assertions in dev and release; "
         "inline-asm template data-flow analysis; abstract interpretation over the sign domain with polynomial result terms",
     },
     "C02": {
-        "clauses": [fam("Mul"), signed("Mul"), both(r3.check_underflow_asserts), r3.check_add2_carry_used, r8.check_cost_general, r8.check_shorter_first, r5check.check_arithmetic({"Mul"}, 15), count_ok("biguint/multiplication.rs", "bigint/multiplication.rs", floor=40), r1.check_biguint_normal_form, r5check.check_division_methods, selftest("R2-count-narrowed")],
+        "clauses": [fam("Mul"), signed("Mul"), both(r3.check_underflow_asserts), r3.check_add2_carry_used, r8.check_cost_general, r8.check_shorter_first, r5check.check_arithmetic({"Mul"}, 15), count_ok("biguint/multiplication.rs", "bigint/multiplication.rs", floor=40), r1.check_biguint_normal_form, r5check.check_division_methods, selftest("R2-count-narrowed"), r3.check_panic_site_table, r3.check_operand_overflow, selftest("R3c-operand-overflow", "R3c-operand-overflow-abs")],
         "not_decided": "temporary sizing, the Karatsuba/Toom-3 algebra (evaluation points, interpolation), mac_with_carry arithmetic, the low-zero stripping arithmetic (all "
         "value-level)",
         "level_text": "Decides: all Mul operator forms forward (operands in either order only because * is commutative) or are reviewed implementations with the sign table "
         "checked for all magnitudes; the carry-overflow assertion of mac_digit is mandatory in release builds and tests the carry returned by __add2; no call "
         "site drops a carry; the regime dispatch read from mac3 has a base case, passes the shorter operand first and yields a cost recurrence inside the "
-        "documented bounds; the multiplication never reaches the multi-digit division; results escape in canonical form.",
+        "documented bounds; the multiplication never reaches the multi-digit division; results escape in canonical form. Also: new explicit panic sites / unchecked negations in the multiplication code are reported (a native-integer fast path that can overflow).",
         "technique": "MIR dataflow over operator impls; CFG dominance of the carry assertion; regime/recurrence extraction from mac3 (dominance regions + call-graph "
         "reachability); abstract interpretation over the sign domain",
     },
     "C03": {
-        "clauses": [fam("Div", "Rem"), signed("Div", "Rem"), both(r3.check_div_guards), r3.check_checked_div, r3.check_division_sites, r5check.check_arithmetic({"Div", "Rem"}, 30), r5check.check_division_methods, count_ok("biguint/division.rs", "bigint/division.rs", floor=90), r1.check_biguint_normal_form, selftest("R2-count-narrowed")],
+        "clauses": [fam("Div", "Rem"), signed("Div", "Rem"), both(r3.check_div_guards), r3.check_checked_div, r3.check_division_sites, r5check.check_arithmetic({"Div", "Rem"}, 30), r5check.check_division_methods, count_ok("biguint/division.rs", "bigint/division.rs", floor=90), r1.check_biguint_normal_form, selftest("R2-count-narrowed"), r3.check_panic_site_table, r3.check_operand_overflow, selftest("R3c-operand-overflow", "R3c-operand-overflow-abs")],
         "not_decided": "Knuth algorithm D (trial digit, add-back), normalisation shifts, the single-digit division loops",
         "level_text": "Decides for every input: each of the ~390 division-family functions either tests its divisor for zero with a release-mode panic before any division "
         "work or forwards the divisor to another division function; the 9 checked division functions return None on the zero edge and reach a division only "
@@ -175,7 +175,7 @@ PROPS = {
         "interpretation over the sign domain with polynomial quotient/remainder terms compared with the definitions",
     },
     "C05": {
-        "clauses": [guards("modulus", "exponent"), r3.check_parity_dispatch, r3.check_residue_complement, r3.check_division_sites, r3.check_add2_carry_used, both(r3.check_underflow_asserts), r1.check_biguint_normal_form, r5check.check_modular, count_ok("biguint/monty.rs", "biguint/power.rs", "bigint/power.rs", "biguint.rs", "bigint.rs", floor=100), both(r11.check_montgomery_operand_lengths), both(r11.check_montgomery_result_length), selftest("R2-count-narrowed")],
+        "clauses": [guards("modulus", "exponent"), r3.check_parity_dispatch, r3.check_residue_complement, r3.check_division_sites, r3.check_add2_carry_used, both(r3.check_underflow_asserts), r1.check_biguint_normal_form, r5check.check_modular, count_ok("biguint/monty.rs", "biguint/power.rs", "bigint/power.rs", "biguint.rs", "bigint.rs", floor=100), both(r11.check_montgomery_operand_lengths), both(r11.check_montgomery_result_length), selftest("R2-count-narrowed"), r3.check_panic_site_table],
         "not_decided": "Montgomery arithmetic (montgomery's inner loops, inv_mod_alt, the window walk), plain_modpow's squaring schedule, extended Euclid",
         "level_text": "Decides: zero-modulus and negative-exponent guards exist in release builds and dominate the computation; the Montgomery path is entered only behind "
         "is_odd(modulus); every BigUint handed to montgomery in monty_modpow has exactly len(modulus) digits on every path (length typestate: reduce-then-pad "
@@ -199,7 +199,7 @@ PROPS = {
         "technique": T_R3 + " (validation order); const-evaluated static tables read from the compiler; MIR argument-provenance tables; normal-form escape analysis",
     },
     "C07": {
-        "clauses": [guards("shift"), fam("Shl", "Shr", "BitAnd", "BitOr", "BitXor"), r5check.check_helpers, r5check.check_shifts, r5check.check_bitops, count_ok("biguint/shift.rs", "bigint/shift.rs", "biguint/bits.rs", "bigint/bits.rs", "biguint.rs", "bigint.rs", floor=100), r1.check_biguint_normal_form, selftest("R2-count-narrowed")],
+        "clauses": [guards("shift"), fam("Shl", "Shr", "BitAnd", "BitOr", "BitXor"), r5check.check_helpers, r5check.check_shifts, r5check.check_bitops, count_ok("biguint/shift.rs", "bigint/shift.rs", "biguint/bits.rs", "bigint/bits.rs", "biguint.rs", "bigint.rs", floor=100), r1.check_biguint_normal_form, selftest("R2-count-narrowed"), r3.check_panic_site_table],
         "not_decided": "running two's-complement carries and result lengths inside the nine bit helpers, intra-digit shift arithmetic, bit queries (bit, trailing_zeros, "
         "count_ones) and set_bit's digit arithmetic",
         "level_text": "Decides: the negative-shift panic precedes everything else in biguint_shl/biguint_shr in release builds (comparison against T::zero() on the shift "
@@ -222,14 +222,14 @@ PROPS = {
         "abstract interpretation over the sign domain for BigInt results",
     },
     "C08": {
-        "clauses": [r5check.check_conversions, r5check.check_tryfrom_err_carries_input, r5check.check_float_guard, _conv_narrowing, count_ok("biguint/convert.rs", "bigint/convert.rs", floor=100), selftest("R2-count-narrowed"), _conv_intermediate],
+        "clauses": [r5check.check_conversions, r5check.check_tryfrom_err_carries_input, r5check.check_float_guard, r9.check_float_reads_every_digit, _conv_narrowing, count_ok("biguint/convert.rs", "bigint/convert.rs", floor=100), selftest("R2-count-narrowed"), _conv_intermediate],
         "not_decided": "digit accumulation / overflow position in BigUint::to_uN, high_bits_to_u64 and float rounding (ties-to-even, infinity cut-off), from_f64's shift arithmetic, two's-complement magnitude arithmetic of From<iN>",
         "level_text": "Decides the sign-gate and ownership clauses for every input: BigInt::to_{i64,i128,u64,u128} return Some(a) exactly when a fits, including the MIN edge "
         "(|a| compared with 2^63 / 2^127 read from MIR), negative -> None for unsigned targets, zero -> Some(0); BigUint::from_iN rejects negatives; "
         "TryFrom<BigInt> for BigUint and all 24 by-value TryFrom impls for primitives hand the original value back in the error; BigUint::from_f64 rejects "
         "NaN/infinities before decoding and negative values after; no conversion casts its primitive input to a narrower integer type or through a saturating "
         "float cast; no conversion to a primitive T goes through to_X() for an X that cannot hold every value of T; no bit count is truncated before it is "
-        "range-checked.",
+        "range-checked. Also: the digit loop of to_f64/to_f32 (helpers inlined) leaves before the last digit only on a condition computed from the digits read - an exit decided by position alone would make the unread digits unable to set the round-to-odd bit.",
         "technique": "abstract interpretation over the sign domain (R5) + MIR def-use checks of the error closures + guard dominance",
     },
     "C09": {
@@ -242,14 +242,14 @@ PROPS = {
         "technique": "interprocedural field read-set analysis over MIR (necessity rule)",
     },
     "C10": {
-        "clauses": [_c10_forwarders, _c10_signed, _c10_folds, _no_narrowing, r3.check_panic_site_table, both(r3.check_underflow_asserts), r3.check_add2_carry_used, r5check.check_arithmetic(None, 85), r5check.check_powers, r5check.check_upow, r3.check_operand_overflow, r5check.check_shifts, r5check.check_bitops, r5check.check_division_methods, r5check.check_roots, r5check.check_modular, r1.check_no_constant_cut, selftest("R2-operand-narrowed", "R3c-operand-overflow", "R1-constant-cut"), both(r3.check_div_guards)],
+        "clauses": [_c10_forwarders, _c10_signed, _c10_folds, _no_narrowing, r3.check_panic_site_table, both(r3.check_underflow_asserts), r3.check_add2_carry_used, r5check.check_arithmetic(None, 85), r5check.check_powers, r5check.check_upow, r3.check_operand_overflow, r5check.check_shifts, r5check.check_bitops, r5check.check_division_methods, r5check.check_roots, r5check.check_modular, r1.check_no_constant_cut, selftest("R2-operand-narrowed", "R3c-operand-overflow", "R3c-operand-overflow-abs", "R1-constant-cut", "R3c-digit-step"), both(r3.check_div_guards), r3.check_digit_step_checked, r1.check_biguint_normal_form],
         "not_decided": "digit splitting/padding inside the unsigned scalar leaves and the digit arithmetic of the leaf implementations",
         "level_text": "Every one of the ~1286 operator impl bodies is classified from its MIR: ~970 are proven pure forwarders (operands reach the callee in order - swapped "
         "only for commutative operators -, scalar promotions are value-preserving casts, the callee's result is the result, the forwarding graph is acyclic and "
         "ends in an implementation); the ~310 implementations are compared with a reviewed table, and 88 of them (the signed ones) are interpreted abstractly: "
         "in every sign/zero/order case the result term equals the operator applied to the operands; signed scalar leaves work on the unsigned magnitude; no "
         "operand is narrowed; Sum/Product are folds of add/mul from ZERO/one(). This is a for-all-inputs argument for the forwarding layer, which is what the "
-        "property is about; tests sample a handful of the forms.",
+        "property is about; tests sample a handful of the forms. Also: every value an operator form returns or leaves in its receiver is in canonical form (R1, attributed to the operator impls and what they reach), and no form steps a digit with checked arithmetic in place of a carry.",
         "technique": "MIR dataflow over operator impls (forwarder classification, operand provenance, cast losslessness, forwarding-graph acyclicity, reviewed leaf table) + "
         "abstract interpretation of the signed leaves over the sign domain",
     },
@@ -260,11 +260,11 @@ PROPS = {
         "the right operands and dominate every return; BigInt roots (trait and inherent methods) carry the operand's sign; the std/no_std difference in "
         "nth_root/sqrt/cbrt is confined to the initial guess passed to fixpoint (cfg-taint over the two builds' MIR); the std-only guess unwraps from_f64 only "
         "behind is_finite() (to_f64 answers Some(INFINITY) for large values); the Newton driver recomputes the candidate after every update of the iterate - so "
-        "the results cannot depend on the availability of floats given Newton convergence.",
+        "the results cannot depend on the availability of floats given Newton convergence. Also: the std-only float guess is taken only for a finite float (is_finite(), or a bit-length test admitting at most MAX_EXP-1 bits - the constant is read from MIR), and the scaled retry keeps at most MAX_EXP-1 bits (`bits - K` with K evaluated from MIR), so the retry cannot see infinity again and recurse on an unshifted value.",
         "technique": T_R3 + "; cross-configuration MIR diff with forward taint (cfg-taint)",
     },
     "C12": {
-        "clauses": [fam("Pow"), _no_narrowing, r5check.check_powers, r5check.check_upow, count_ok("biguint/power.rs", "bigint/power.rs", floor=30), r1.check_biguint_normal_form, r3.check_operand_overflow, selftest("R2-operand-narrowed", "R3c-operand-overflow", "R2-count-narrowed")],
+        "clauses": [fam("Pow"), _no_narrowing, r5check.check_powers, r5check.check_upow, count_ok("biguint/power.rs", "bigint/power.rs", floor=30), r1.check_biguint_normal_form, r3.check_operand_overflow, selftest("R2-operand-narrowed", "R3c-operand-overflow", "R3c-operand-overflow-abs", "R2-count-narrowed"), r3.check_panic_site_table],
         "not_decided": "the square-and-multiply arithmetic itself",
         "level_text": "Decides: all Pow operator forms (by value / by reference, every exponent type) are verified forwarders or reviewed implementations that do not narrow "
         "the exponent; BigInt::pow gives the result the sign (-1)^e for negative bases in all 29 forms and canonical zero; the BigUint^BigUint form decides 0^0 "
@@ -272,13 +272,13 @@ PROPS = {
         "technique": "MIR dataflow over operator impls + abstract interpretation over the sign/parity domain",
     },
     "C13": {
-        "clauses": [r3.check_division_sites, r3.check_gcd_zero_cases, r5check.check_helpers, count_ok("biguint.rs", "bigint.rs", floor=100), r1.check_biguint_normal_form, selftest("R2-count-narrowed")],
+        "clauses": [r3.check_division_sites, r3.check_gcd_zero_cases, r3.check_gcd_nonzero_at_shift, r5check.check_helpers, count_ok("biguint.rs", "bigint.rs", floor=100), r1.check_biguint_normal_form, selftest("R2-count-narrowed"), r3.check_panic_site_table],
         "not_decided": "Stein's algorithm (common power of two, subtraction loop), num-integer's generic extended_gcd loop itself, arithmetic of the multiple-of helpers",
         "level_text": "Decides: gcd returns the other operand when one is zero before Stein's loop; lcm / gcd_lcm / extended_gcd_lcm divide only by a gcd shown non-zero by a "
         "dominating test (own zero test, or the joint zero test of exactly the gcd's two arguments); BigInt::extended_gcd_lcm returns (g, x, y, l) with a*x + "
         "b*y = g modulo the Bezout relation of the extended_gcd it calls, g >= 0, g = 0 exactly for a = b = 0 and l*g = |a*b| modulo the exactness of divisions "
         "by g, in all nine sign cases; is_multiple_of takes the remainder only behind other != 0 and answers self == 0 otherwise; the BigInt wrappers (gcd, "
-        "lcm, is_multiple_of, divides, is_even/is_odd, next/prev multiple, inc, dec) take magnitudes and signs as defined.",
+        "lcm, is_multiple_of, divides, is_even/is_odd, next/prev multiple, inc, dec) take magnitudes and signs as defined. Also: the two values whose trailing-zero counts give gcd's common power of two are provably non-zero at that point (forward must-analysis: is_zero tests generate, &mut uses kill, clones and moves carry the fact) - trailing_zeros() of zero counts as 0 and silently loses the factor.",
         "technique": "CFG dominance / divisor provenance over MIR; abstract interpretation over the sign domain with an uninterpreted extended_gcd and polynomial identity "
         "checking modulo its Bezout relation",
     },
@@ -297,12 +297,12 @@ PROPS = {
             r3.check_parity_dispatch,
             r3.check_inventory,
             r3.check_panic_site_table,
-            r9.check_iterator_write_sets, r3.check_operand_overflow, selftest("R3c-operand-overflow"), r3.check_float_guess_guard],
+            r9.check_iterator_write_sets, both(r11.check_montgomery_operand_lengths), both(r11.check_montgomery_result_length), r3.check_operand_overflow, r3.check_digit_step_checked, selftest("R3c-operand-overflow", "R3c-operand-overflow-abs", "R3c-digit-step"), r3.check_float_guess_guard],
         "not_decided": "unreachability of internal/debug assertions, primitive arithmetic overflow in debug builds, index bounds, termination, faults other than division by zero",
         "level_text": "Decides the guard discipline for every input in both profiles: every documented failure (zero divisor, underflow, negative shift, radix range, zero "
         "modulus, negative exponent, zeroth/imaginary root, empty range, zero bound) has a release-mode guard testing the right operand before the work; "
         "checked variants return None on the failure edge and reach the panicking operation only behind the excluding edge; no mandatory assertion is "
-        "debug-only; debug-only code is effect-free.",
+        "debug-only; debug-only code is effect-free. Also: the operand-length assertions of `montgomery` cannot trip (R11 length typestate), the scaled float-guess retry terminates (K <= MAX_EXP-1), no digit is stepped with checked arithmetic.",
         "technique": T_R3 + "; dev-vs-release panic-site inventory",
     },
     "C15": {
@@ -316,7 +316,7 @@ PROPS = {
         "technique": "inline-asm template data-flow analysis (reaching definitions over the instruction list) + MIR def-use/dominance at the call sites; closed-world unsafe inventory",
     },
     "C16": {
-        "clauses": [r6.check_matrix, r6.check_feature_stability, r6.check_cfg_taint, r3.check_inventory, profile_diff(_guard_table, "r3_guards_profile_diff"), profile_diff(r3.check_underflow_asserts), profile_diff(r3.check_radix), profile_diff(r3.check_div_guards), r3.check_operand_overflow, selftest("R3c-operand-overflow"), r3.check_float_guess_guard],
+        "clauses": [r6.check_matrix, r6.check_feature_stability, r6.check_cfg_taint, r3.check_inventory, profile_diff(_guard_table, "r3_guards_profile_diff"), profile_diff(r3.check_underflow_asserts), profile_diff(r3.check_radix), profile_diff(r3.check_div_guards), r3.check_operand_overflow, r3.check_digit_step_checked, selftest("R3c-operand-overflow", "R3c-operand-overflow-abs", "R3c-digit-step"), r3.check_float_guess_guard],
         "not_decided": "equality of results where it rests on arithmetic (Newton fixpoint independent of the guess; float helper agreement; absence of overflow so that "
         "overflow-check and wrapping builds agree); the 32-bit-digit variants of the code are analysed through an i686 build (-Zbuild-std): one configuration in the quick tier, all in the thorough tier",
         "level_text": "Decides: all ten documented feature configurations type-check (and the i686 / 32-bit-digit build does); enabling serde/rand/quickcheck/arbitrary "
@@ -324,7 +324,7 @@ PROPS = {
         "configuration-dependent values reach only capacity estimates or the Newton initial guess, never its result or a branch that decides it; the std-only "
         "float guess is guarded by is_finite(); explicit panic sites outside debug-only code are the same in dev and release, mandatory guards are not "
         "debug-only, debug-only code is effect-free, and no exported function does overflow-checked arithmetic directly on an unconstrained caller-supplied "
-        "scalar (debug panic vs release wrap).",
+        "scalar (debug panic vs release wrap). The guard rules are read differentially here: a guard that only the dev profile has (debug_assert!) is reported, a guard neither profile has is C14's. Also: no overflow-checked step on a digit (debug panics, release wraps).",
         "technique": "type checking of the 10-configuration matrix; canonical MIR fingerprints across 4 fact configurations; cfg-taint (cross-config line diff + forward dataflow); dev-vs-release inventory",
     },
     "C17": {
@@ -357,13 +357,13 @@ PROPS = {
         "technique": "recurrence extraction: dominance regions of the regime tests in MIR + call-graph reachability for recursive fan-out, evaluated symbolically in Python",
     },
     "C18": {
-        "clauses": [guards("range", "bound"), r10.check_rejection_loop, r10.check_gen_bigint, r10.check_delegations, r10.check_gen_bits, r5check.check_ranges, r4.check_raw_slice_lengths, count_ok("bigrand.rs", floor=20), selftest("R2-count-narrowed")],
+        "clauses": [guards("range", "bound"), r10.check_rejection_loop, r10.check_gen_bigint, r10.check_delegations, r10.check_gen_bits, r5check.check_ranges, r4.check_raw_slice_lengths, count_ok("bigrand.rs", floor=20), selftest("R2-count-narrowed"), r1.check_biguint_normal_form],
         "not_decided": "the distribution itself; big-endian word swapping (not compiled on this target); RNG quality",
         "level_text": "Decides: zero bound / empty / inverted range assertions are mandatory and compare the right operands with the right strictness; gen_biguint_below is a "
         "first-candidate rejection loop (bits = bound.bits(), strict <, candidate returned unchanged), hence every value of the range has equally many "
         "pre-images; gen_bigint re-draws zero on one outcome of a fresh bool and picks the sign by another; RandomBits and the Uniform samplers delegate with "
         "the right terms (base + below(high - low), inclusive = high + 1); gen_biguint's buffer lengths and the remainder handed to gen_bits are the right "
-        "functions of bit_size (evaluated for 0..4096) and gen_bits masks only the last word.",
+        "functions of bit_size (evaluated for 0..4096) and gen_bits masks only the last word. Also: every BigUint built in bigrand.rs escapes normalised (R1) - `all results are canonical`.",
         "technique": T_R3 + "; CFG/loop-structure and argument-provenance analysis of the samplers",
     },
 }
